@@ -434,7 +434,7 @@ def run(check, ctx):
                  "i from 1 as a 4-byte big-endian counter", cite="RFC 8018 5.2"))
     # ---- HKDF ---------------------------------------------------------------------------------
     hm = OBJ(digest_size=HL)
-    for L in (1, 32, 33, 64, 65):
+    for L in (1, 32, 33, 64, 65, 254 * HL + 1, 255 * HL - 1, 255 * HL):
         run_obs(check, repo, ObsRow(
             "hkdf.expand.%d" % L, "C12", KDF, "_HKDF_expand", [0], lambda v: {}, ret,
             lambda v, L=L: ref_hkdf_expand(b"PRK", b"info", L),
@@ -574,6 +574,9 @@ def run(check, ctx):
     bcrypt_value_rows(check, repo)
     s2v_sequence_rows(check, repo)
     scrypt_composition_rows(check, repo)
+    # a password / salt handed in as a bytearray is read, never extended or overwritten (bcrypt appends a NUL to a copy)
+    from .c19_extra import argument_mutation, KDF_ENTRIES
+    argument_mutation(check, repo, entries=KDF_ENTRIES)
     # HMAC key preparation is part of PBKDF2/HKDF's specification (RFC 2104)
     from .c03_extra import hmac_rows
     hmac_rows(check, repo, prop="C12")
